@@ -94,6 +94,7 @@ def run(ctx, R, tier):
     R.rule("C14-R6", "removal counts: len() of the very list handed to remove_items; 1 only after the guarded delete", floor=3)
     R.rule("C14-R10", "SqlStorage.__setitem__ writes the key and the uri it was given on every path (an overwrite does not keep the old uri)", floor=1)
     R.rule("C14-R11", "the command line client asks the question its command names: yplookup_all -> meta_all, yplookup_any -> meta_any", floor=2)
+    R.rule("C14-R12", "the sqlite columns that hold names, uris and tags have TEXT affinity, so a value that looks like a number is stored as the text it is", floor=3)
 
     # ---------------------------------------------------------------- R1 + collect DML
     dml_by_method = {}
@@ -195,6 +196,12 @@ def run(ctx, R, tier):
                 elif not cfg.all_paths_pass(dn, lambda n: n in cn, edge_ok=no_exc, targets=[cfg.exit]):
                     ok = False
                     why = "a normal path leaves the method after a mutating statement without committing"
+        if ok and len(dml) >= 2:
+            auto = [c for c in walk_no_nested(m.node) if isinstance(c, ast.Call) and dotted(c.func) == "sqlite3.connect"
+                    and any(k.arg == "isolation_level" and isinstance(k.value, ast.Constant) and k.value.value is None for k in c.keywords)]
+            if auto and name != "clear":
+                ok = False
+                why = "the connection is opened with isolation_level=None (autocommit): each of the %d statements commits on its own, so a failure half way leaves a partly applied operation" % len(dml)
         R.check(ok, "C14-R2", "SqlStorage.%s|one-transaction" % name, "%d mutating statement(s) in one block with one trailing commit" % len(dml), m.loc(), why)
 
     # ---------------------------------------------------------------- R3
@@ -364,6 +371,25 @@ def run(ctx, R, tier):
         R.check(ok, "C14-R5", "optimized_metadata_search|%s-is-a-set" % prm, "the counted argument is a set when it reaches the SQL search", oms.loc(count_uses[0]), why)
     if n5 < 1:
         raise AnalysisError("optimized_metadata_search: no counted argument found")
+    # every tag collection whose len() the sqlite search takes (also just for the placeholder list) reaches it as a set: an iterator or generator has no len()
+    yp = ctx.fn("Pyro5.nameserver.NameServer.yplookup")
+    for prm in oms.params[1:]:
+        if not any(isinstance(n, ast.Call) and isinstance(n.func, ast.Name) and n.func.id == "len" and n.args and unparse(n.args[0]) == prm for n in walk_no_nested(oms.node)):
+            continue
+        bad = None
+        for c in ctx.calls_to(yp, oms.qualname) + [c for c, _ in ctx.cg.calls_of(yp) if isinstance(c.func, ast.Attribute) and c.func.attr == "optimized_metadata_search"]:
+            for kw in c.keywords:
+                if kw.arg == prm:
+                    a = kw.value
+                    good = isinstance(a, ast.Call) and isinstance(a.func, ast.Name) and a.func.id in ("set", "frozenset")
+                    if isinstance(a, ast.Name):
+                        defs = [d for n in ctx.node_of(yp, c) for d in ctx.rd(yp).reaching(n, a.id)]
+                        good = bool(defs) and all(d.kind == "assign" and isinstance(d.value, ast.Call) and isinstance(d.value.func, ast.Name) and d.value.func.id in ("set", "frozenset") for d in defs)
+                    if not good:
+                        bad = c
+        R.check(bad is None, "C14-R5", "optimized_metadata_search|%s-is-sized" % prm, "yplookup converts the tags to a (frozen)set before the storage sees them", yp.loc(bad) if bad is not None else yp.loc(),
+                "yplookup passes `%s` to the storage as the caller gave it: the sqlite search takes len() of it, the in-memory search only iterates it, so an iterator works on one "
+                "back-end and raises TypeError on the other" % prm)
 
     # ---------------------------------------------------------------- R10
     from .common import sql_setitem_writes_uri
@@ -376,6 +402,41 @@ def run(ctx, R, tier):
         kws = {k.arg for c in yc for k in c.keywords}
         R.check(len(yc) == 1 and kw in kws and not ({"meta_all", "meta_any"} - {kw}) & kws, "C14-R11", "nsc.%s|keyword" % cmd, "calls yplookup(%s=<tags>)" % kw, g.loc(),
                 "`nsc %s` calls yplookup with %s: it answers the other question (all tags / any tag) on both back-ends alike" % (cmd[4:], sorted(kws & {"meta_all", "meta_any"})))
+
+    # ---------------------------------------------------------------- R12
+    cs = sq.methods.get("_create_schema")
+    if cs is None:
+        raise AnalysisError("SqlStorage._create_schema vanished")
+    cols = {}
+    for c in walk_no_nested(cs.node):
+        if isinstance(c, ast.Call) and isinstance(c.func, ast.Attribute) and c.func.attr == "execute" and c.args:
+            okc, text = ctx.const(c.args[0], cs)
+            if okc and isinstance(text, str) and "CREATE TABLE" in text.upper():
+                body = text[text.index("(") + 1:text.rindex(")")]
+                for part in body.split(","):
+                    words = part.split()
+                    if len(words) >= 2 and words[0].upper() not in ("FOREIGN", "PRIMARY", "UNIQUE", "CHECK", "CONSTRAINT"):
+                        cols[words[0].lower()] = (words[1], c)
+
+    def affinity(decl):
+        d = decl.upper()
+        if "INT" in d:
+            return "INTEGER"
+        if "CHAR" in d or "CLOB" in d or "TEXT" in d:
+            return "TEXT"
+        if "BLOB" in d:
+            return "BLOB"
+        if "REAL" in d or "FLOA" in d or "DOUB" in d:
+            return "REAL"
+        return "NUMERIC"
+    for col in ("name", "uri", "metadata"):
+        if col not in cols:
+            R.fail("C14-R12", "column|%s" % col, "text column declared", cs.loc(), "column %s not found in the CREATE TABLE statements" % col)
+            continue
+        decl, call = cols[col]
+        R.check(affinity(decl) == "TEXT", "C14-R12", "column|%s" % col, "declared type `%s` has TEXT affinity under SQLite's type-name rules" % decl, cs.loc(call),
+                "column %s is declared `%s`, which SQLite gives %s affinity: a name or tag such as '007' or '1e3' is converted to a number when stored, so the sqlite back-end "
+                "merges / renames entries the in-memory back-end keeps apart" % (col, decl, affinity(decl)))
 
 
 def _inside(node, container):
